@@ -19,3 +19,63 @@ Theorem C03_neg_within_unit :
   forall (A : tt) (P : val -> Prop), spec_of G U A P -> spec_of G U (eval_neg U A) (fun w => ~ P w).
 Proof. exact spec_neg. Qed.
 Print Assumptions C03_neg_within_unit.
+
+(** ---- second part: closed results ignore the spare copies ---- *)
+(** C03 (part 2) -- the meaning of a formula, and the evaluator's result for a closed formula,
+    ignore the spare copies that hold no free variable.  Statements only; the proofs are in
+    Proofs/IndepFacts.v.
+
+    [copies_ok G A t]  : every free occurrence of a state variable of t (an atom {x} or a jump
+                         @{x} not below a binder using the same copy) is stored in a copy e
+                         with A e;
+    [avoids_copy G e t] = copies_ok G (fun e' => e' <> e) t   (no free variable lives in copy e);
+    [closed_copies G t] = copies_ok G (fun _ => False) t      (no free variable at all);
+    [closed_names [] t] (closedness by variable names) implies [closed_copies G t]. *)
+From HCTL Require Import Base Syntax TT Ops Eval Kripke HCTL.
+From HCTL Require Import EvalPure Main IndepFacts.
+
+(** overwriting a copy in which no free variable of t is stored does not change the meaning
+    of t (update functions and context sets do not read the spare copies) *)
+Theorem C03_sat_ignores_unused_copy :
+  forall (G : genv) (names : list str) (Gamma : str -> val -> Prop),
+  (forall i v w, (forall g, is_extra_tag g = false -> v g = w g) ->
+     mem (g_L G) (upd_of G i) v = mem (g_L G) (upd_of G i) w) ->
+  (forall l v w, (forall j, v (TP j) = w (TP j)) -> (forall i, v (TS i) = w (TS i)) ->
+     (Gamma l v <-> Gamma l w)) ->
+  forall (e : nat) (u : val) (t : tree) (v : val),
+    avoids_copy G e t ->
+    (sat G names Gamma t (set_copy e u v) <-> sat G names Gamma t v).
+Proof. exact sat_set_copy_irrelevant. Qed.
+
+(** the meaning of a closed formula depends on the colour and the state only *)
+Theorem C03_sat_closed_ignores_copies :
+  forall (G : genv) (names : list str) (Gamma : str -> val -> Prop),
+  (forall i v w, (forall g, is_extra_tag g = false -> v g = w g) ->
+     mem (g_L G) (upd_of G i) v = mem (g_L G) (upd_of G i) w) ->
+  (forall l v w, (forall j, v (TP j) = w (TP j)) -> (forall i, v (TS i) = w (TS i)) ->
+     (Gamma l v <-> Gamma l w)) ->
+  forall (t : tree) (v w : val),
+    closed_copies G t ->
+    (forall j, v (TP j) = w (TP j)) -> (forall i, v (TS i) = w (TS i)) ->
+    (sat G names Gamma t v <-> sat G names Gamma t w).
+Proof. exact sat_closed_ignores_copies. Qed.
+
+(** the set computed for a closed formula does not constrain any spare copy *)
+Theorem C03_closed_ignores_copies :
+  forall (G : genv) (names : list str) (U : tt), wf_env G names U ->
+  forall (sw : switches) (t : tree) (R : tt),
+    plainf t -> supported G t -> closed_copies G t ->
+    peval G names sw (steady_of G U) t U = Ok R ->
+    forall v w, (forall j, v (TP j) = w (TP j)) -> (forall i, v (TS i) = w (TS i)) ->
+      mem (g_L G) R v = mem (g_L G) R w.
+Proof. exact closed_ignores_copies. Qed.
+
+(** closedness by names is enough, whatever the graph *)
+Theorem C03_closed_names_closed_copies :
+  forall (G : genv) (t : tree), closed_names [] t -> closed_copies G t.
+Proof. exact closed_names_closed_copies. Qed.
+
+Print Assumptions C03_sat_ignores_unused_copy.
+Print Assumptions C03_sat_closed_ignores_copies.
+Print Assumptions C03_closed_ignores_copies.
+Print Assumptions C03_closed_names_closed_copies.
